@@ -107,22 +107,24 @@ def Node.feeders (n : Node) (x : String) : List Op := n.ops.filter (fun o' => o'
 def Circuit.edgesInto (c : Circuit) (p : Path) : List Edge := c.edges.filter (fun e => e.tgt == p)
 
 /-- value an input variable must have: its declared default if nothing connects to it, otherwise the sum over all same-node
-feeders and over **all** incoming edges (a multiset: parallel edges count separately) of weight × source -/
-def inputValue (c : Circuit) (ρ : Path → Rat) (n : Node) (o : Op) (d : VarDecl) : Rat :=
+feeders, over **all** incoming edges (a multiset: parallel edges count separately) of weight × source, and over all
+extrinsic inputs `ext p` addressed to it at the current time (C08) -/
+def inputValue (c : Circuit) (ext : Path → List Rat) (ρ : Path → Rat) (n : Node) (o : Op) (d : VarDecl) : Rat :=
   let fs := n.feeders d.name
   let es := c.edgesInto ⟨n.path, o.name, d.name⟩
-  if fs.isEmpty && es.isEmpty then d.value
-  else (fs.map (fun o' => ρ ⟨n.path, o'.name, d.name⟩)).sum + (es.map (fun e => e.weight * ρ e.src)).sum
+  let xs := ext ⟨n.path, o.name, d.name⟩
+  if fs.isEmpty && es.isEmpty && xs.isEmpty then d.value
+  else (fs.map (fun o' => ρ ⟨n.path, o'.name, d.name⟩)).sum + (es.map (fun e => e.weight * ρ e.src)).sum + xs.sum
 
 /-- **The specification** (C01's wording): `ρ` assigns to every declared variable the value the user's equations define,
 given the state `σ`. -/
-def IsSolution (I : Interp) (c : Circuit) (σ : Path → Rat) (ρ : Path → Rat) : Prop :=
+def IsSolution (I : Interp) (c : Circuit) (ext : Path → List Rat) (σ : Path → Rat) (ρ : Path → Rat) : Prop :=
   ∀ n ∈ c.nodes, ∀ o ∈ n.ops, ∀ d ∈ o.vars,
     let p : Path := ⟨n.path, o.name, d.name⟩
     match o.kindOf d with
     | .state => ρ p = σ p
     | .const => ρ p = d.value
-    | .input => ρ p = inputValue c ρ n o d
+    | .input => ρ p = inputValue c ext ρ n o d
     | .alg => ∀ e, o.defEq d.name = some e → ρ p = eval I (fun x => ρ ⟨n.path, o.name, x⟩) e.rhs
 
 /-- derivative of a state variable under the solution `ρ`: its own equation -/
